@@ -108,7 +108,7 @@ def observe_sim(s):
     except Exception:
         pass
     return dict(seed=int(s.pars.rand_seed), n_agents=int(s.pars.n_agents), flat=impl.flat_results(s) if done else None,
-                stamp=stamp, oid=id(s))
+                stamp=stamp, oid=id(s), initialized=bool(getattr(s, 'initialized', False)), label=getattr(s, 'label', None))
 
 
 def err_name(e):
@@ -118,11 +118,27 @@ def err_name(e):
 ERR_KIND = dict(AlreadyRunError='E:AlreadyRun', KeyNotFoundError='E:KeyNotFound', TypeError='E:Type', ValueError='E:Value')
 
 
+def ip_norm(ip):
+    """ iterpars as dict(seeds=[..]|None, n_agents=[..]|None, cfg_ids=[..]|None) (accepts the round-1 form) """
+    if not ip: return None
+    if 'kind' in ip:
+        if ip['kind'] == 'rand_seed': return dict(seeds=list(ip['values']), n_agents=None, cfg_ids=None)
+        return dict(seeds=None, n_agents=list(ip['values']), cfg_ids=list(ip['cfg_ids']))
+    return ip
+
+
+def ip_desc(ip):
+    ip = ip_norm(ip)
+    if not ip: return None
+    return '+'.join(k for k in ('seeds', 'n_agents') if ip.get(k) is not None)
+
+
 def n_tasks(sc):
     if sc['target'] == 'list':
         return len(sc['members'])
-    if sc.get('iterpars'):
-        return len(sc['iterpars']['values'])
+    ip = ip_norm(sc.get('iterpars'))
+    if ip:
+        return len(ip['seeds'] if ip.get('seeds') is not None else ip['n_agents'])
     return sc['n_runs']
 
 
@@ -131,6 +147,7 @@ def pool_shape(sc):
     n = max(n_tasks(sc), 1)
     import sciris as sc_
     workers = sc['n_cpus'] or sc_.cpu_count()
+    if 0 < workers < 1: workers = int(np.ceil(sc_.cpu_count() * workers))   # a fraction of the machine
     workers = max(1, min(int(workers), n))
     chunk, extra = divmod(n, workers * 4)
     if extra: chunk += 1
@@ -142,14 +159,28 @@ def run_impl(sc):
     import starsim as ss
     cfgs = sc['cfgs']
     with quiet():
-        members = [build(cfgs[m['cfg']], m['seed']) for m in sc['members']]
+        members = []
+        for m in sc['members']:
+            members.append(members[m['alias']] if m.get('alias') is not None else build(cfgs[m['cfg']], m['seed']))
         if sc.get('preinit'):
             for s in members: s.init()
         kw = {}
         if sc['mode'] == 'serial': kw['parallel'] = False
         if sc['mode'] == 'parallel' and sc['n_cpus'] is not None: kw['n_cpus'] = sc['n_cpus']
         if sc.get('reseed') is not None: kw['reseed'] = sc['reseed']
-        if sc.get('iterpars'): kw['iterpars'] = {sc['iterpars']['kind']: list(sc['iterpars']['values'])}
+        ip = ip_norm(sc.get('iterpars'))
+        if ip:
+            kw['iterpars'] = {}
+            if ip.get('n_agents') is not None: kw['iterpars']['n_agents'] = list(ip['n_agents'])
+            if ip.get('seeds') is not None: kw['iterpars']['rand_seed'] = list(ip['seeds'])
+        sa = sc.get('sim_args')
+        if sa:
+            d = {}
+            if sa.get('n_agents') is not None: d['n_agents'] = sa['n_agents']
+            if sa.get('seed') is not None: d['rand_seed'] = sa['seed']
+            if sa.get('as_kwargs'): kw.update(d)
+            else: kw['sim_args'] = d
+        if sc.get('shrink'): kw['shrink'] = True
         if not sc.get('do_run', True): kw['do_run'] = False
         target = members[0] if sc['target'] == 'single' else members
         out = dict(error=None, message=None)
@@ -158,6 +189,11 @@ def run_impl(sc):
                 sims = ss.multi_run(target, n_runs=sc['n_runs'], **kw)
             elif sc['api'] == 'MultiSim':
                 m = ss.MultiSim(target, n_runs=sc['n_runs'], inplace=sc['inplace'], debug=(sc['mode'] == 'debug'), **kw)
+                m.run()
+                sims = m.sims
+            elif sc['api'] == 'initrun':
+                m = ss.MultiSim(target, n_runs=sc['n_runs'], inplace=sc['inplace'], debug=(sc['mode'] == 'debug'), initialize=True, **kw)
+                out['prepared'] = [observe_sim(s) for s in m.sims]
                 m.run()
                 sims = m.sims
             elif sc['api'] == 'parallel':
@@ -191,17 +227,23 @@ def observed_schedule(sc, out):
 def model_line(sc, sched, chunk, variant='asis'):
     ms = ','.join(f"{m['cfg']}:{m['seed']}:{m['seed'] if sc.get('preinit') else 'none'}:0" for m in sc['members'])
     rs = 'none' if sc.get('reseed') is None else str(int(sc['reseed']))
-    iseeds = icfgs = 'none'
-    ip = sc.get('iterpars')
+    iseeds = icfgs = simseed = simcfg = 'none'
+    ip = ip_norm(sc.get('iterpars'))
     if ip:
-        if ip['kind'] == 'rand_seed':
-            iseeds = ','.join(str(v) for v in ip['values']) or '-'
-        else:
-            icfgs = ','.join(str(v) for v in ip['cfg_ids']) or '-'
+        if ip.get('seeds') is not None: iseeds = ','.join(str(v) for v in ip['seeds']) or '-'
+        if ip.get('n_agents') is not None: icfgs = ','.join(str(v) for v in ip['cfg_ids']) or '-'
+    sa = sc.get('sim_args')
+    if sa:
+        if sa.get('seed') is not None: simseed = str(sa['seed'])
+        if sa.get('n_agents') is not None: simcfg = str(sa['cfg_id'])
     inplace = int(bool(sc['inplace'])) if sc['api'] != 'multi_run' else 0
+    api = dict(multi_run='msim', MultiSim='msim', parallel='parallel', initrun='initrun')[sc['api']]
     ss_ = ','.join(f'{w}:{i}' for w, i in sched) or '-'
-    return (f"run {variant} {sc['target']} {ms} {sc['n_runs']} {rs} {iseeds} {icfgs} {int(sc.get('do_run', True))} "
-            f"{sc['mode']} {inplace} {chunk} {ss_}")
+    ident = '-'
+    if any(m.get('alias') is not None for m in sc['members']):
+        ident = ','.join(str(m['alias'] if m.get('alias') is not None else i) for i, m in enumerate(sc['members']))
+    return (f"run {variant} {api} {sc['target']} {ms} {sc['n_runs']} {rs} {iseeds} {icfgs} {simseed} {simcfg} "
+            f"{int(sc.get('do_run', True))} {sc['mode']} {inplace} {chunk} {ident} {ss_}")
 
 
 def parse_model(line):
@@ -212,8 +254,8 @@ def parse_model(line):
         if s == '-': return []
         res = []
         for t in s.split(','):
-            c, sd, eff = t.split(':')
-            res.append(dict(cfg=int(c), seed=int(sd), eff=None if eff == '-' else int(eff)))
+            c, sd, eff, ini = t.split(':')
+            res.append(dict(cfg=int(c), seed=int(sd), eff=None if eff == '-' else int(eff), init=bool(int(ini))))
         return res
     return dict(error=None, callers=sims(parts['callers']), sims=sims(parts['sims']))
 
@@ -225,6 +267,8 @@ def compare_sim(sc, obs, pred, where):
         return f"{where}: rand_seed impl={obs['seed']} model={pred['seed']}"
     if obs['n_agents'] != cfg['n_agents']:
         return f"{where}: n_agents impl={obs['n_agents']} model cfg has {cfg['n_agents']}"
+    if obs['initialized'] != pred['init']:
+        return f"{where}: initialized impl={obs['initialized']} model={pred['init']}"
     if pred['eff'] is None:
         if obs['flat'] is not None:
             return f'{where}: impl sim has results, model says it was not run'
@@ -250,6 +294,10 @@ def compare_outcome(sc, out, model):
         return f"outcome impl raised {out['error']}: {out['message']}; model=ok"
     for name in ('sims', 'callers'):
         a, b = out[name], model[name]
+        if name == 'callers' and any(m.get('alias') is not None for m in sc['members']) and len(b) == len(sc['members']):
+            # one Python object stands at several list positions: the in-place copy of the LAST of them is what it holds
+            cls = [m['alias'] if m.get('alias') is not None else i for i, m in enumerate(sc['members'])]
+            b = [b[max(j for j in range(len(cls)) if cls[j] == cls[i])] for i in range(len(cls))]
         if len(a) != len(b):
             return f'{name}: impl has {len(a)} sims, model {len(b)}'
         for i, (o, p) in enumerate(zip(a, b)):
@@ -261,57 +309,110 @@ def compare_outcome(sc, out, model):
 # ---------------------------------------------------------------------------
 # scenario generator
 
-def small_cfg(rng):
-    cfg = impl.gen_sim_config(rng, small=True, allow_global_readers=False)
+def small_cfg(rng, births=False):
+    if births:   # ss.Births draws from the process-global generator, which Sim.init seeds: init and run must stay together
+        cfg = impl.gen_sim_config(rng, small=True, allow_global_readers=True, demographics=['births', 'deaths'])
+    else:
+        cfg = impl.gen_sim_config(rng, small=True, allow_global_readers=False)
     cfg['n_agents'] = min(cfg['n_agents'], 200)
-    # ErdosRenyiNet/DiskNet index agents by array position (C14 finding): with births and deaths they read storage of
-    # removed agents and the run is no longer a function of (configuration, seed) across processes -- observed here:
-    # erdosrenyi + pregnancy + deaths differs in ~1 of 4 forked workers.  Not C18's subject: avoid.
-    if cfg['demographics']:
-        nets = [n if n['type'] not in ('erdosrenyi', 'disk') else dict(type='random', n_contacts=4, dur=0) for n in cfg['networks']]
-        cfg['networks'] = [n for i, n in enumerate(nets) if n['type'] not in [m['type'] for m in nets[:i]]]
     return cfg
+
+
+def with_n_agents(cfgs, base_id, v):
+    c = dict(cfgs[base_id]); c['n_agents'] = v
+    cfgs.append(c)
+    return len(cfgs) - 1
+
+
+N_CPUS = [1, 2, 4, None, 8, 0.5, 32]
 
 
 def gen_scenario(rng, thorough=False, force=None):
     force = force or {}
-    cfgs = [small_cfg(rng)]
+    cfgs = [small_cfg(rng, births=force.get('births', False))]
     target = force.get('target') or rng.choice(['single', 'single', 'list', 'list'])
     mode = force.get('mode') or rng.choice(['parallel', 'parallel', 'parallel', 'serial'])
-    cpus = [1, 2, 4] + ([16] if thorough else [])
-    sc = dict(cfgs=cfgs, target=target, mode=mode, n_cpus=rng.choice(cpus + [None]) if mode == 'parallel' else None,
-              reseed=rng.choice([None, None, None, True, False]), iterpars=None, inplace=rng.random() < 0.6, do_run=True,
-              preinit=False, n_runs=rng.choice([1, 2, 3, 4, 4, 5, 6] + ([9, 12, 16] if thorough else [])))
+    cpus = N_CPUS + ([16] if thorough else [])
+    sc = dict(cfgs=cfgs, target=target, mode=mode, n_cpus=rng.choice(cpus) if mode == 'parallel' else None,
+              reseed=rng.choice([None, None, None, True, False]), iterpars=None, sim_args=None, inplace=rng.random() < 0.6, do_run=True,
+              preinit=False, shrink=(True if rng.random() < 0.15 else None),
+              n_runs=rng.choice([1, 2, 3, 4, 4, 5, 6] + ([9, 12, 16] if thorough else [])))
     if target == 'single':
-        sc['api'] = rng.choice(['multi_run', 'MultiSim'])
+        sc['api'] = force.get('api') or rng.choice(['multi_run', 'MultiSim', 'MultiSim', 'initrun'])
+        if sc['api'] == 'initrun' and sc['reseed']: sc['reseed'] = None
         sc['members'] = [dict(cfg=0, seed=cfgs[0]['rand_seed'])]
         r = rng.random()
-        if r < 0.2:
+        if r < 0.35:
             k = rng.randint(1, 4)
-            sc['iterpars'] = dict(kind='rand_seed', values=[rng.randint(0, 5000) for _ in range(k)])
-        elif r < 0.35:
-            k = rng.randint(1, 3)
-            vals = [rng.choice([50, 70, 90, 120]) for _ in range(k)]
-            ids = []
-            for v in vals:
-                c = dict(cfgs[0]); c['n_agents'] = v
-                cfgs.append(c); ids.append(len(cfgs) - 1)
-            sc['iterpars'] = dict(kind='n_agents', values=vals, cfg_ids=ids)
-        # keep clear of the chunk-sharing finding in the random stream (it has its own probes): n <= 4*workers
-        if mode == 'parallel':
-            w, chunk = pool_shape(sc)
-            if chunk > 1:
-                sc['n_cpus'] = None
+            seeds = [rng.randint(0, 5000) for _ in range(k)] if r < 0.15 or r >= 0.27 else None
+            nag = [rng.choice([50, 70, 90, 120]) for _ in range(k)] if r >= 0.15 else None
+            sc['iterpars'] = dict(seeds=seeds, n_agents=nag, cfg_ids=[with_n_agents(cfgs, 0, v) for v in nag] if nag else None)
+        same = True
     else:
-        sc['api'] = rng.choice(['multi_run', 'MultiSim', 'parallel'])
+        sc['api'] = force.get('api') or rng.choice(['multi_run', 'MultiSim', 'parallel'])
         k = max(rng.choice([1, 2, 3, 3, 4, 5] + ([8, 12] if thorough else [])), force.get('min_members', 1))
         same = rng.random() < 0.5
         if not same:
             for _ in range(min(k - 1, 2)):
                 cfgs.append(small_cfg(rng))
         sc['members'] = [dict(cfg=(0 if same else rng.randrange(len(cfgs))), seed=rng.randint(0, 10000)) for _ in range(k)]
-    sc.update({k: v for k, v in force.items() if k not in ('target', 'mode', 'min_members')})
+        if 2 <= k <= 4 and rng.random() < 0.12:     # the same object twice in the list
+            j = rng.randrange(1, k); a = rng.randrange(0, j)
+            if sc['members'][a].get('alias') is None:
+                sc['members'][j] = dict(sc['members'][a], alias=a)
+    if same and rng.random() < 0.15:
+        v = rng.choice([50, 80, 110])
+        sc['sim_args'] = dict(n_agents=v, cfg_id=with_n_agents(cfgs, 0, v), seed=None, as_kwargs=rng.random() < 0.5)
+    sc.update({k: v for k, v in force.items() if k not in ('target', 'mode', 'min_members', 'births', 'sizes')})
+    if force.get('sizes'):      # members of different sizes (same configuration otherwise)
+        sc['members'] = [dict(cfg=with_n_agents(cfgs, 0, v), seed=rng.randint(0, 10000)) for v in force['sizes']]
+    # keep clear of the chunk-sharing finding in the random stream (it has its own probes): n <= 4*workers
+    if target == 'single' and mode == 'parallel' and 'n_cpus' not in force:
+        if pool_shape(sc)[1] > 1:
+            sc['n_cpus'] = None
     return sc
+
+
+def fixed_families(rng, thorough=False):
+    """ Scenario families exercised in EVERY run (one per clause of the property / configuration family of its quantifier) """
+    G = lambda **f: gen_scenario(rng, thorough, dict(dict(iterpars=None, sim_args=None, reseed=None, shrink=None), **f))
+    sizes = rng.choice([[90, 150, 60, 120], [120, 60, 150, 90], [60, 150, 90], [150, 90, 120, 60, 100]])
+    fam = [
+        # replicates, every api
+        G(target='single', mode='parallel', n_cpus=2, api='multi_run', n_runs=4),
+        G(target='single', mode='parallel', n_cpus=rng.choice([2, 4]), api='MultiSim', n_runs=3),
+        # prepare-then-run with a module reading the process-global generator (init and run must not be separated)
+        G(target='single', mode='parallel', n_cpus=2, api='initrun', n_runs=3, births=True),
+        G(target='single', mode='serial', api='initrun', n_runs=rng.choice([2, 3]), births=True),
+        G(target='single', mode='parallel', n_cpus=rng.choice([1, 4]), api='MultiSim', n_runs=3, births=True),
+        # lists: fewer workers than sims, members of different sizes, in place
+        G(target='list', mode='parallel', n_cpus=rng.choice([2, 3]), api=rng.choice(['MultiSim', 'parallel']), inplace=True, sizes=sizes),
+        G(target='list', mode='parallel', n_cpus=rng.choice([1, 2]), api='multi_run', sizes=sizes[::-1]),
+        G(target='list', mode='parallel', n_cpus=2, api='MultiSim', inplace=True, min_members=3),
+        # exactly one sim, in place
+        G(target='list', mode=rng.choice(['parallel', 'serial']), n_cpus=None, api='parallel', inplace=True,
+          members=[dict(cfg=0, seed=rng.randint(0, 9999))]),
+        G(target='list', mode='serial', api='MultiSim', inplace=True, members=[dict(cfg=0, seed=rng.randint(0, 9999))]),
+        # iterpars with several keys, sim_args, worker counts beyond / as a fraction of the machine, shrink
+        G(target='single', mode='parallel', n_cpus=rng.choice([0.5, 32]), api='multi_run', n_runs=3, shrink=True),
+        # debug mode
+        G(target='list', mode='debug', api='MultiSim', min_members=2),
+        G(target='single', mode='debug', api='MultiSim'),
+    ]
+    sc = G(target='single', mode='serial', api='multi_run', n_runs=2)
+    sc['iterpars'] = dict(seeds=[rng.randint(0, 999), rng.randint(0, 999)], n_agents=[70, 90],
+                          cfg_ids=[with_n_agents(sc['cfgs'], 0, 70), with_n_agents(sc['cfgs'], 0, 90)])
+    sc['sim_args'] = dict(n_agents=55, cfg_id=with_n_agents(sc['cfgs'], 0, 55), seed=None, as_kwargs=False)
+    fam.append(sc)
+    sc = G(target='list', mode='serial', api='MultiSim', inplace=True, min_members=2)
+    if len({m['cfg'] for m in sc['members']}) == 1:
+        sc['sim_args'] = dict(n_agents=80, cfg_id=with_n_agents(sc['cfgs'], sc['members'][0]['cfg'], 80), seed=None, as_kwargs=True)
+    fam.append(sc)
+    # the same object twice
+    sc = G(target='list', mode=rng.choice(['parallel', 'serial']), n_cpus=2, api='MultiSim', inplace=True,
+           members=[dict(cfg=0, seed=77), dict(cfg=0, seed=78), dict(cfg=0, seed=77, alias=0)])
+    fam.append(sc)
+    return fam
 
 
 def canon(sc):
@@ -339,7 +440,8 @@ def shared_cfg_members(sc, out):
     if out['error'] or len(out['objs']) < 2: return None
     if any(o['flat'] is None for o in out['sims']): return None
     if sc['target'] == 'single':
-        if sc.get('iterpars') and sc['iterpars']['kind'] != 'rand_seed': return None
+        ip = ip_norm(sc.get('iterpars'))
+        if ip and ip.get('n_agents') is not None: return None
     elif len({m['cfg'] for m in sc['members']}) != 1:
         return None
     return out['objs']
@@ -353,6 +455,7 @@ def reduce_impl(sims, use_mean, bounds, quantiles):
         if use_mean: m.mean(bounds=bounds)
         else: m.median(quantiles=quantiles)
     res = {}
+    res['__metadata__'] = dict(m.base_sim.metadata)
     for k, r in m.results.items():
         if k == 'timevec': continue
         try:
@@ -380,40 +483,67 @@ def q_pair(quantiles):
 
 def gen_reduce_opts(rng):
     use_mean = rng.random() < 0.5
-    bounds = rng.choice([None, None, 1, 3, 0.5]) if use_mean else None
-    quantiles = None if use_mean else rng.choice([None, None, [0.25, 0.75], {'low': 0.0, 'high': 1.0}, [0.05, 0.5], {'low': 0.3, 'high': 0.9}])
+    bounds = rng.choice([None, None, 1, 3, 0.5, 0, 0.0]) if use_mean else None
+    quantiles = None if use_mean else rng.choice([None, None, [0.25, 0.75], {'low': 0.0, 'high': 1.0}, [0.05, 0.5], {'low': 0.3, 'high': 0.9},
+                                                  [0, 1], (0, 0.5), {'low': 0, 'high': 0.5}, (0.5, 1), [1, 1], [0.0, 0.0]])
     return use_mean, bounds, quantiles
 
 
-def correspond_reduce(ctx, sc, sims, opts, max_keys=4):
-    """ reduced arrays of the real code vs the model's exact statistics of the same members """
+# explicit arguments at the boundary values, exercised in every run
+BOUNDARY_OPTS = [(True, 0, None), (True, None, None), (False, None, [0, 1]), (False, None, {'low': 0, 'high': 0.5}), (False, None, (0.0, 1.0)),
+                 (False, None, None), (True, 1, None)]
+
+
+def opt_args(opts):
+    """ the reduce arguments as the model receives them: bounds / quantile pair as exact rationals, `none` if not given """
     use_mean, bounds, quantiles = opts
-    k = 2 if bounds is None else bounds
-    qlo, qhi = q_pair(quantiles)
+    b = 'none' if bounds is None else frac_str(bounds)
+    if quantiles is None: q = 'none'
+    else:
+        lo, hi = q_pair(quantiles)
+        q = f'{frac_str(lo)},{frac_str(hi)}'
+    return b, q
+
+
+def correspond_reduce(ctx, sc, sims, opts, max_keys=4):
+    """ reduced arrays of the real code vs the model's exact statistics of the same members (one driver call) """
+    use_mean, bounds, quantiles = opts
+    barg, qarg = opt_args(opts)
     npts = len(sims[0])
     mixed = mixed_keys(sims)
+    rowstr = lambda mat: ';'.join(','.join(frac_str(x) for x in m) or '-' for m in mat)
     try:
         red = reduce_impl(sims, use_mean, bounds, quantiles)
     except ValueError as e:
-        if not mixed:
+        lens = {len(s) for s in sims}
+        if not mixed and len(lens) == 1:
             return f'reduce raised ValueError ({e}) although every series has {npts} points'
-        mat = member_matrix(sims, mixed[0])
-        rows = ';'.join(','.join(frac_str(x) for x in m) or '-' for m in mat)
-        ol = ctx.drive(DRIVER, [f'reduce asis {npts} {int(use_mean)} {frac_str(k)} {frac_str(qlo)} {frac_str(qhi)} {rows}'])[0]
-        ctx.count('reduce_mixed_raises')
-        return None if ol == 'E:Value' else f'reduce of {mixed[0]} (length {len(mat[0])}, sim has {npts} points): impl raised ValueError, model {ol}'
+        key = mixed[0] if mixed else sorted(impl.flat_results(sims[0]))[0]
+        mat = member_matrix(sims, key)
+        ol = ctx.drive(DRIVER, [f'reduce asis {npts} {int(use_mean)} {barg} {qarg} {rowstr(mat)}'])[0]
+        ctx.count('reduce_rejected')
+        return None if ol == 'E:Value' else f'reduce of {key} (lengths {[len(m) for m in mat]}, sim has {npts} points): impl raised ValueError, model {ol}'
     if mixed:
         return f'reduce succeeded although {mixed[0]} has another length than the sim ({npts} points); the model (asis) predicts ValueError'
-    keys = sorted(red)
-    keys = [kk for kk in keys if all(np.all(np.isfinite(v)) for v in member_matrix(sims, kk))]
+    md = red.pop('__metadata__')
+    keys = [kk for kk in sorted(red) if all(np.all(np.isfinite(v)) for v in member_matrix(sims, kk))]
     keys = ctx.rng.sample(keys, min(max_keys, len(keys)))
-    lines = []
-    for key in keys:
-        mat = member_matrix(sims, key)
-        rows = ';'.join(','.join(frac_str(x) for x in m) or '-' for m in mat)
-        lines.append(f'reduce asis {npts} {int(use_mean)} {frac_str(k)} {frac_str(qlo)} {frac_str(qhi)} {rows}')
-    outl = ctx.drive(DRIVER, lines) if lines else []
-    for key, ln, ol in zip(keys, lines, outl):
+    lines = [f'reduceargs {barg} {qarg}'] + [f'reduce asis {npts} {int(use_mean)} {barg} {qarg} {rowstr(member_matrix(sims, key))}' for key in keys]
+    outl = ctx.drive(DRIVER, lines)
+    al = outl[0]
+    if not al.startswith('ok '):
+        return f'reduceargs: model answered {al}'
+    k, qlo, qhi = (F(x) for x in al.split()[1:])
+    # the argument values the code actually used (it records them in the reduced sim's metadata) vs the model's
+    if use_mean:
+        if md.get('bounds') is None or float(md['bounds']) != float(k):
+            return f"reduce(bounds={bounds!r}): the code used bounds={md.get('bounds')!r}, the model {float(k)}"
+    else:
+        mq = md.get('quantiles') or {}
+        if float(mq.get('low', -1)) != float(qlo) or float(mq.get('high', -1)) != float(qhi):
+            return f"reduce(quantiles={quantiles!r}): the code used {mq!r}, the model ({float(qlo)}, {float(qhi)})"
+    ctx.count('reduce_args_checked')
+    for key, ol in zip(keys, outl[1:]):
         if not ol.startswith('ok'):
             return f'reduce {key}: model answered {ol}'
         bands = [] if ol == 'ok -' else [tuple(parse_rat(x) for x in b.split(',')) for b in ol[3:].split(';')]
@@ -428,17 +558,38 @@ def correspond_reduce(ctx, sc, sims, opts, max_keys=4):
             ctx.count('reduce_exact' if F(float(c[t])) == mc else 'reduce_within_tol')
             if use_mean:
                 sd = math.sqrt(float(mvar))
-                elo, ehi = float(mc) - k * sd, float(mc) + k * sd
+                elo, ehi = float(mc) - float(k) * sd, float(mc) + float(k) * sd
                 tol = STD_RTOL * max(1.0, scale)
                 if abs(lo[t] - elo) > tol or abs(hi[t] - ehi) > tol:
-                    return f'reduce {key}[{t}] mean bounds impl=({lo[t]!r},{hi[t]!r}) model=({elo!r},{ehi!r}) k={k}'
-                # consistency of the model's own band with sqrt := id
-                if mlo != mc - F(float(k)) * mvar or mhi != mc + F(float(k)) * mvar:
+                    return f'reduce {key}[{t}] mean bounds impl=({lo[t]!r},{hi[t]!r}) model=({elo!r},{ehi!r}) k={float(k)}'
+                if mlo != mc - k * mvar or mhi != mc + k * mvar:
                     return f'reduce {key}[{t}] model band inconsistent'
             else:
                 if not close(lo[t], mlo, scale) or not close(hi[t], mhi, scale):
-                    return f'reduce {key}[{t}] quantile bounds impl=({lo[t]!r},{hi[t]!r}) model=({float(mlo)!r},{float(mhi)!r}) q=({qlo},{qhi})'
+                    return f'reduce {key}[{t}] quantile bounds impl=({lo[t]!r},{hi[t]!r}) model=({float(mlo)!r},{float(mhi)!r}) q=({float(qlo)},{float(qhi)})'
             ctx.count('reduce_points')
+    return None
+
+
+def correspond_diff_npts(ctx):
+    """ members on different time lines: reduce is rejected by the code and by the model (both variants) """
+    cfg = small_cfg(ctx.rng)
+    cfg = dict(cfg, demographics=[], unit='year', dt=1.0, start=2000)
+    c1 = dict(cfg, dur=4.0); c2 = dict(cfg, dur=6.0)
+    sc = dict(cfgs=[c1, c2], members=[dict(cfg=0, seed=5), dict(cfg=1, seed=6), dict(cfg=0, seed=7)], target='list', api='multi_run', mode='serial',
+              n_cpus=None, n_runs=1, reseed=None, iterpars=None, sim_args=None, inplace=False, do_run=True, preinit=False, shrink=None)
+    out = run_impl(sc)
+    if out['error']:
+        return f"harness: could not run the members: {out['error']}"
+    for order in ([0, 1, 2], [1, 0, 2]):
+        sims = [out['objs'][i] for i in order]
+        d = correspond_reduce(ctx, sc, sims, (False, None, None))
+        if d: return d
+        try:
+            reduce_impl(sims, True, None, None)
+            return 'reduce of members with different numbers of time points returned a result; the model rejects it'
+        except ValueError:
+            pass
     return None
 
 
@@ -503,16 +654,19 @@ def correspond(ctx):
         if ol != f'ok {c}':
             ctx.broke('correspondence', 'C18.chunk', f'pool chunk size: model {ol} vs CPython formula {c} for n={n} workers={w}')
             break
-    nsc = ctx.budget(16, 110)
+    nsc = ctx.budget(10, 100)
     scenarios = [gen_scenario(ctx.rng, ctx.thorough) for _ in range(nsc)]
     # fixed families that must always be exercised
-    scenarios += [gen_scenario(ctx.rng, ctx.thorough, dict(target='single', mode='parallel', n_cpus=2, api='multi_run', n_runs=4, iterpars=None, reseed=None)),
-                  gen_scenario(ctx.rng, ctx.thorough, dict(target='list', mode='parallel', n_cpus=2, api='MultiSim', inplace=True, min_members=3)),
-                  gen_scenario(ctx.rng, ctx.thorough, dict(target='list', mode='debug', api='MultiSim')),
-                  gen_scenario(ctx.rng, ctx.thorough, dict(target='single', mode='debug', api='MultiSim', iterpars=None)),
-                  gen_scenario(ctx.rng, ctx.thorough, dict(target='single', mode='parallel', n_cpus=1, api='multi_run', n_runs=6, iterpars=None)),
-                  gen_scenario(ctx.rng, ctx.thorough, dict(target='single', mode='parallel', n_cpus=1, api='multi_run', n_runs=6, iterpars=None, do_run=False)),
-                  gen_scenario(ctx.rng, ctx.thorough, dict(target='single', mode='serial', api='multi_run', n_runs=3, iterpars=None, preinit=True, reseed=None))]
+    scenarios += fixed_families(ctx.rng, ctx.thorough)
+    P = lambda **f: gen_scenario(ctx.rng, ctx.thorough, dict(dict(iterpars=None, sim_args=None, reseed=None, shrink=None), **f))
+    # the recorded defects, as the model (asis) predicts them
+    scenarios += [P(target='single', mode='parallel', n_cpus=1, api='multi_run', n_runs=6),
+                  P(target='single', mode='parallel', n_cpus=1, api='multi_run', n_runs=6, do_run=False),
+                  P(target='single', mode='parallel', n_cpus=1, api='initrun', n_runs=6),
+                  P(target='single', mode='serial', api='multi_run', n_runs=3, preinit=True),
+                  # the same object twice within one Pool.map chunk (5 entries on one worker: chunks of 2)
+                  P(target='list', mode='parallel', n_cpus=1, api='multi_run',
+                    members=[dict(cfg=0, seed=31), dict(cfg=0, seed=31, alias=0), dict(cfg=0, seed=32), dict(cfg=0, seed=33), dict(cfg=0, seed=34)])]
     n_reduce = 0
     for sc in scenarios:
         try:
@@ -554,6 +708,11 @@ def correspond(ctx):
             opts = gen_reduce_opts(ctx.rng)
             try:
                 d = correspond_reduce(ctx, sc, sims, opts)
+                if d is None and n_reduce == 1:      # explicit arguments at their boundary values, every run
+                    for bo in BOUNDARY_OPTS:
+                        d = d or correspond_reduce(ctx, sc, sims, bo, max_keys=2)
+                        opts = bo if d else opts
+                        if d: break
                 if d is None and n_reduce <= ctx.budget(3, 20):
                     d = correspond_summarize(ctx, sims)
             except impl_errors() as e:
@@ -563,6 +722,15 @@ def correspond(ctx):
                 ctx.broke('correspondence', 'C18.reduce', f'reduced statistics diverge from the model: {d}',
                           data=dict(kind='reduce', scenario=sc, opts=list(opts)))
                 break
+    if not any(b['kind'] == 'correspondence' for b in ctx.broken):
+        correspond_extra(ctx)
+
+
+def correspond_extra(ctx):
+    d = correspond_diff_npts(ctx)
+    ctx.case(('reduce-different-npts',), nontrivial=True)
+    if d:
+        ctx.broke('correspondence', 'C18.reduce', f'members with different time lines: {d}', data=dict(kind='diff-npts'))
 
 
 def impl_errors():
@@ -574,21 +742,25 @@ def impl_errors():
 
 def expected_members(sc):
     """ what the property demands: [(cfg id, seed)] per member """
+    sa = sc.get('sim_args') or {}
     if sc['target'] == 'single':
         base = sc['members'][0]
-        ip = sc.get('iterpars')
+        ip = ip_norm(sc.get('iterpars')) or {}
         n = n_tasks(sc)
         rs = True if sc.get('reseed') is None else sc['reseed']
         res = []
         for i in range(n):
             seed = base['seed'] + i if rs else base['seed']
             cfg = base['cfg']
-            if ip and ip['kind'] == 'rand_seed': seed = ip['values'][i]
-            if ip and ip['kind'] != 'rand_seed': cfg = ip['cfg_ids'][i]
+            if sa.get('seed') is not None: seed = sa['seed']
+            if sa.get('n_agents') is not None: cfg = sa['cfg_id']
+            if ip.get('seeds') is not None: seed = ip['seeds'][i]
+            if ip.get('n_agents') is not None: cfg = ip['cfg_ids'][i]
             res.append((cfg, seed))
         return res
     rs = False if sc.get('reseed') is None else sc['reseed']
-    return [(m['cfg'], m['seed'] + (i if rs else 0)) for i, m in enumerate(sc['members'])]
+    return [(sa['cfg_id'] if sa.get('n_agents') is not None else m['cfg'],
+             sa['seed'] if sa.get('seed') is not None else m['seed'] + (i if rs else 0)) for i, m in enumerate(sc['members'])]
 
 
 def q_ref(vals, q):
@@ -605,7 +777,7 @@ def oracle_scenario(sc, rng=None, with_reduce=True):
     out = run_impl(sc)
     workers, chunk = pool_shape(sc)
     chunked = bool(sc['target'] == 'single' and sc['mode'] == 'parallel' and chunk > 1)
-    desc = f"{sc['api']}({sc['target']}, n={n_tasks(sc)}, mode={sc['mode']}, n_cpus={sc['n_cpus']}, reseed={sc.get('reseed')}, iterpars={sc.get('iterpars') and sc['iterpars']['kind']}, inplace={sc['inplace']})"
+    desc = f"{sc['api']}({sc['target']}, n={n_tasks(sc)}, mode={sc['mode']}, n_cpus={sc['n_cpus']}, reseed={sc.get('reseed')}, iterpars={ip_desc(sc.get('iterpars'))}, sim_args={bool(sc.get('sim_args'))}, shrink={sc.get('shrink')}, inplace={sc['inplace']})"
     if out['error']:
         fails.append(dict(signature=dict(oracle='multirun-raises', mode=sc['mode'], error=out['error'], chunked=chunked, target=sc['target']),
                           what=f"{desc} raised {out['error']}: {out['message']}"))
@@ -634,11 +806,19 @@ def oracle_scenario(sc, rng=None, with_reduce=True):
 
     for i, (o, (c, s)) in enumerate(zip(out['sims'], exp)):
         check(o, c, s, f'member {i}', 'member-vs-standalone')
+    # returned members are in member order: an unlabelled member i comes back labelled 'Sim i'
+    if not fails and not any(m.get('alias') is not None for m in sc['members']):
+        labels = [o['label'] for o in out['sims']]
+        if labels != [f'Sim {i}' for i in range(len(labels))]:
+            fails.append(dict(signature=dict(oracle='label-order'), what=f"{desc}: returned members are labelled {labels}, expected Sim 0..{len(labels) - 1} in order"))
     if len({o['oid'] for o in out['sims']}) != len(out['sims']) and not fails:
         fails.append(dict(signature=dict(oracle='member-aliasing', chunked=chunked), what=f'{desc}: two returned members are the same object'))
     # in-place hand-over
     if sc['api'] != 'multi_run' and sc['target'] == 'list':
-        if sc['inplace']:
+        aliased = any(m.get('alias') is not None for m in sc['members'])
+        if sc['inplace'] and aliased:
+            pass    # one object at several positions cannot hold several results: nothing to demand
+        elif sc['inplace']:
             for i, (o, (c, s)) in enumerate(zip(out['callers'], exp)):
                 check(o, c, s, f"caller's sim {i} (inplace=True)", 'inplace')
         elif sc['mode'] != 'debug':
@@ -674,6 +854,7 @@ def oracle_reduce(sims, rng, desc, opts=None, perm=None):
                      what=f'{desc}: reduce{opts} raised {err_name(e)}: {e}' + (f' (result {mixed[0]} has another length than the sim time vector)' if mixed else ''))]
     perm = perm or rng.sample(range(len(sims)), len(sims))
     red_p = reduce_impl([sims[j] for j in perm], use_mean, bounds, quantiles)
+    red.pop('__metadata__', None); red_p.pop('__metadata__', None)
     for key in sorted(red):
         mat = member_matrix(sims, key)
         if not all(np.all(np.isfinite(m)) for m in mat): continue
@@ -702,6 +883,33 @@ def oracle_reduce(sims, rng, desc, opts=None, perm=None):
             if not ok_p:
                 fails.append(dict(signature=dict(oracle='reduce', stat='permutation'), what=f'{desc}: reduce{opts} {key}[{t}] changes under the member permutation {perm}'))
             if fails: return fails
+    return fails
+
+
+def oracle_idempotent(sims, desc):
+    """ mean()/median() twice give the same arrays; median after mean is the median; reducing does not touch the members """
+    import starsim as ss
+    fails = []
+    before = [impl.flat_results(s) for s in sims]
+    def arrays(m):
+        return {k: (np.array(r.values if hasattr(r, 'values') else r, dtype=float), np.array(r.low, dtype=float), np.array(r.high, dtype=float))
+                for k, r in m.results.items() if k != 'timevec'}
+    def same(a, b):
+        return a.keys() == b.keys() and all(all(np.array_equal(x, y, equal_nan=True) for x, y in zip(a[k], b[k])) for k in a)
+    try:
+        with quiet():
+            m = ss.MultiSim(sims=list(sims))
+            m.mean(); a1 = arrays(m); m.mean(); a2 = arrays(m)
+            m.median(); b1 = arrays(m); m.median(); b2 = arrays(m)
+            m2 = ss.MultiSim(sims=list(sims)); m2.median(); b0 = arrays(m2)
+    except Exception as e:
+        if mixed_keys(sims): return []
+        return [dict(signature=dict(oracle='reduce-twice', what='raises', error=err_name(e)), what=f'{desc}: calling mean()/median() repeatedly raised {err_name(e)}: {e}')]
+    if not same(a1, a2): fails.append(dict(signature=dict(oracle='reduce-twice', what='mean'), what=f'{desc}: mean() called twice gives different arrays'))
+    if not same(b1, b2) or not same(b1, b0): fails.append(dict(signature=dict(oracle='reduce-twice', what='median'), what=f'{desc}: median() after mean() / called twice differs from a fresh median()'))
+    after = [impl.flat_results(s) for s in sims]
+    if not all(impl.arrays_equal(x, y)[0] for x, y in zip(before, after)):
+        fails.append(dict(signature=dict(oracle='reduce-twice', what='members-modified'), what=f'{desc}: reduce modified the members'))
     return fails
 
 
@@ -762,7 +970,7 @@ def oracle_permutation(sc):
 def known_probes(rng):
     """ fixed scenarios for the recorded defects (re-run on every check) """
     cfg = small_cfg(rng)
-    base = dict(cfgs=[cfg], members=[dict(cfg=0, seed=cfg['rand_seed'])], reseed=None, iterpars=None, inplace=True, do_run=True, preinit=False)
+    base = dict(cfgs=[cfg], members=[dict(cfg=0, seed=cfg['rand_seed'])], reseed=None, iterpars=None, sim_args=None, shrink=None, inplace=True, do_run=True, preinit=False)
     two = dict(base, members=[dict(cfg=0, seed=11), dict(cfg=0, seed=12)])
     return [
         dict(two, target='list', api='MultiSim', mode='debug', n_cpus=None, n_runs=4),
@@ -774,13 +982,11 @@ def known_probes(rng):
 
 
 def search(ctx):
-    n = ctx.budget(7, 60)
+    n = ctx.budget(5, 50)
     scenarios = [gen_scenario(ctx.rng, ctx.thorough) for _ in range(n)]
-    scenarios += [gen_scenario(ctx.rng, ctx.thorough, dict(target='single', mode='parallel', n_cpus=2, api='MultiSim', n_runs=4, iterpars=None, reseed=None)),
-                  gen_scenario(ctx.rng, ctx.thorough, dict(target='single', mode='serial', api='multi_run', n_runs=3, iterpars=None, reseed=None)),
-                  gen_scenario(ctx.rng, ctx.thorough, dict(target='list', mode='parallel', n_cpus=2, api='MultiSim', inplace=True, min_members=3)),
-                  gen_scenario(ctx.rng, ctx.thorough, dict(target='list', mode='serial', api='parallel', inplace=True, min_members=2))]
-    did_sum = 0
+    fam = [sc for sc in fixed_families(ctx.rng, ctx.thorough) if sc['mode'] != 'debug']
+    scenarios += fam if (ctx.thorough or ctx.broken) else fam[:10]
+    did_sum = 0; did_boundary = False
     for i, sc in enumerate(scenarios):
         fails, out = oracle_scenario(sc, ctx.rng)
         ctx.count('oracle_scenarios')
@@ -790,6 +996,13 @@ def search(ctx):
             for f in oracle_permutation(sc):
                 ctx.fail(f['signature'], f['what'], dict(kind='permutation', scenario=sc))
         sims = shared_cfg_members(sc, out)
+        if sims is not None and not did_boundary and not mixed_keys(sims):
+            did_boundary = True
+            for bo in BOUNDARY_OPTS:
+                for f in oracle_reduce(sims, ctx.rng, f'MultiSim of {len(sims)} members', opts=bo):
+                    ctx.fail(f['signature'], f['what'], dict(kind='reduce', scenario=sc, opts=list(bo)))
+            for f in oracle_idempotent(sims, f'MultiSim of {len(sims)} members'):
+                ctx.fail(f['signature'], f['what'], dict(kind='idempotent', scenario=sc))
         if sims is not None and did_sum < ctx.budget(2, 10):
             did_sum += 1
             for f in oracle_summarize(sims, f"MultiSim of {len(sims)} members"):
@@ -812,11 +1025,13 @@ def replay(ctx, data):
         fails = oracle_permutation(sc)
         for f in fails: print('  ', f['what'][:300])
         return bool(fails)
-    if kind in ('summarize', 'reduce'):
+    if kind in ('summarize', 'reduce', 'idempotent'):
         out = run_impl(sc)
         sims = shared_cfg_members(sc, out)
         if sims is None: return False
-        fails = oracle_summarize(sims, 'replay') if kind == 'summarize' else oracle_reduce(sims, ctx.rng, 'replay', opts=tuple(data['opts']) if data.get('opts') else None)
+        if kind == 'summarize': fails = oracle_summarize(sims, 'replay')
+        elif kind == 'idempotent': fails = oracle_idempotent(sims, 'replay')
+        else: fails = oracle_reduce(sims, ctx.rng, 'replay', opts=tuple(data['opts']) if data.get('opts') else None)
         for f in fails: print('  ', f['what'][:300])
         return bool(fails)
     return False
